@@ -338,6 +338,9 @@ def scan (mem : Mem) : Nat → Nat → Option Nat → Option (List Ch × Tail)
       | none => none
       | some (cs, t) => some (⟨n, cp, w⟩ :: cs, t)
 
+/-- Memory holding the given bytes at offsets `0 …` and NUL everywhere after them. -/
+def memOfBytes (l : List Nat) : Mem := fun i => UInt8.ofNat (l.getD i 0)
+
 /-! #### Reference decoder of the runtime oracle (strict about continuation bytes) -/
 
 def isCont (b : Nat) : Bool := decide (0x80 ≤ b) && decide (b < 0xc0)
